@@ -250,6 +250,13 @@ def contracts(chk, repo, clause_b, clause_d, clause_e, clause_i, clause_conserve
                 ob('propagation window has prop_shape*oversample samples',
                    e_prop.bound['shape'] == Tup([ps.items[0] * osf, ps.items[1] * osf], 'vec'),
                    f'shape = {fmt(e_prop.bound["shape"])}', e_prop)
+            elif cfg['shape'] is not NONE:
+                # an omitted prop_shape is the requested output shape (the whole output is evaluated), not the shape of
+                # the pupil array
+                ps = cfg['shape']
+                ob('propagation window defaults to the output window (shape*oversample samples)',
+                   e_prop.bound['shape'] == Tup([ps.items[0] * osf, ps.items[1] * osf], 'vec'),
+                   f'shape = {fmt(e_prop.bound["shape"])}', e_prop)
             cc = clause_conserve or clause_b
             ob('propagation window follows the integer part of the shift', e_prop.bound['shift'] == fix_shift,
                f'shift = {fmt(e_prop.bound["shift"])}; expected {fmt(fix_shift)}', e_prop, cl=cc)
@@ -384,6 +391,9 @@ def run(chk, repo, tier):
     _pfs_rule(chk, repo, 'C02-p')
     insert_rules(chk, repo, 'C02-p')
     _common.mul_concat(chk, repo, 'C02-p')
+    # the shift a field is propagated with folds every recorded tilt, each told the shift accumulated so far
+    from .c04 import folding as _folding
+    _folding(chk, repo, 'C02-p')
     chk.clause('C02-k', 'the transform the propagator calls evaluates the Fraunhofer kernel: phase -2*pi*i*alpha*(u - shift)(x + offset) '
                         'per axis with origins at floor(n/2), unitary gain', 8)
     from .common import Remap
